@@ -95,6 +95,15 @@ pub fn run(outdir: &Path, tier: &str, seed: u64, shards: usize, replay: Option<S
         for (i, mut p) in crate::c04dir::directed().into_iter().enumerate() {
             if i % 7 == 0 {
                 p.opts.response_derives = Some("Serialize".into());
+                if i % 14 == 0 {
+                    // an operation name that normalization = rust would spell differently
+                    for d in p.doc.defs.iter_mut() {
+                        if let QDef::Op { name, .. } = d {
+                            *name = Some("listThings".into());
+                        }
+                    }
+                    p.opts.operation_name = Some("listThings".into());
+                }
                 ps.push(p);
             }
         }
@@ -138,8 +147,10 @@ pub fn run(outdir: &Path, tier: &str, seed: u64, shards: usize, replay: Option<S
             q.opts.operation_name = Some(op.clone());
             let obs = gencase::observe(&q, None);
             let idx = match (&obs.modules, &obs.tokens) {
-                (Some(ms), Some(tokens)) if ms.iter().any(|m| m.operation_name == op) => {
-                    let m = ms.iter().find(|m| m.operation_name == op).unwrap();
+                // the module of the operation under test, found by its module name (the constant OPERATION_NAME is
+                // one of the things being compared)
+                (Some(ms), Some(tokens)) if ms.iter().any(|m| m.name == heck::ToSnakeCase::to_snake_case(op.as_str())) => {
+                    let m = ms.iter().find(|m| m.name == heck::ToSnakeCase::to_snake_case(op.as_str())).unwrap();
                     let sname = m.struct_decl.as_ref().map(|d| d.0.clone()).unwrap_or_else(|| m.impl_for.clone());
                     let mut prelude = String::new();
                     if q.opts.custom_scalars_module.is_some() {
@@ -152,7 +163,11 @@ pub fn run(outdir: &Path, tier: &str, seed: u64, shards: usize, replay: Option<S
                         code: tokens.clone(),
                         prelude,
                         exposed: vec![Exposed { key: "resp".into(), path: format!("{}::ResponseData", m.name), de: true, ser: true }],
-                        custom: vec![("vars".into(), crate::c04::variables_expr(&m.name, &sname))],
+                        custom: vec![
+                            ("vars".into(), crate::c04::variables_expr(&m.name, &sname)),
+                            // the rest of the request body: operationName and query (Variables = unit or anything: not needed)
+                            ("envelope".into(), format!("format!(\"OK {{}}\", crate::canon(&serde_json::json!([w::{m}::OPERATION_NAME, w::{m}::QUERY])))", m = m.name)),
+                        ],
                         outer: String::new(),
                     }))
                 }
@@ -193,6 +208,7 @@ pub fn run(outdir: &Path, tier: &str, seed: u64, shards: usize, replay: Option<S
                 for a in &pr.assignments {
                     all.push((idx, "vars".to_string(), a.text()));
                 }
+                all.push((idx, "envelope".to_string(), "null".to_string()));
             }
         }
     }
@@ -217,10 +233,13 @@ pub fn run(outdir: &Path, tier: &str, seed: u64, shards: usize, replay: Option<S
                 w.push(resp::sobs_coq(compiled, &line));
                 lines.push(line);
             }
+            let env_line = if v.idx.is_some() { let l = results[k].clone(); k += 1; l } else { "COMPILE-ERROR".to_string() };
+            let env_obs = resp::sobs_coq(compiled, &env_line);
+            lines.push(env_line);
             if !compiled {
                 *dist.entry(format!("does not compile/{}", v.what)).or_default() += 1;
             }
-            vcoq.push(format!("(mkVar9 {} {}\n    [{}]\n    [{}])", coq::s(&v.what), gencase::gcase(&v.p, &v.obs), r.join("; "), w.join("; ")));
+            vcoq.push(format!("(mkVar9 {} {}\n    [{}]\n    [{}]\n    {})", coq::s(&v.what), gencase::gcase(&v.p, &v.obs), r.join("; "), w.join("; "), env_obs));
             vdesc.push(json!({"what": v.what, "opts": v.p.opts, "observed": lines, "compile_errors": v.idx.and_then(|i| cons.status.get(i).and_then(|s| s.as_ref().err().cloned()))}));
         }
         let p0 = &pr.vars[0].p;
